@@ -48,7 +48,12 @@ from ..qhelp import arr_digest
 #                           configuration alphabet                            #
 # --------------------------------------------------------------------------- #
 
-Cfg = collections.namedtuple("Cfg", "method state pform ham hdt t0 small cb stop prog d")
+Cfg = collections.namedtuple("Cfg", "method state pform ham hdt t0 small cb stop prog d play hlay")
+# play / hlay: MEMORY LAYOUT of the initial state / of the dense Hamiltonian
+# data: C, F (asfortranarray), T (transposed view of a C array, non-owning),
+# slice (strided non-owning view into a larger sentinel-filled array).  The
+# logical matrix is identical in all four - layout must never matter.
+LAYOUTS = ("C", "F", "T", "slice")
 
 METHODS = ("solve", "integrate", "expm")
 STATES = ("ket", "dop_pure", "dop_mixed")
@@ -114,7 +119,7 @@ def _pilot_steps(cfg, T0):
 
 def _long_T(cfg):
     """Deterministic function of (checked tree, VERIF_SEED, cfg)."""
-    key = (cfg.state, cfg.pform, cfg.ham, cfg.hdt, cfg.t0, bool(cfg.small), cfg.d)
+    key = (cfg.state, cfg.pform, cfg.ham, cfg.hdt, cfg.t0, bool(cfg.small), cfg.d, cfg.play, cfg.hlay)
     if key not in _LONG_T:
         rho = float(np.max(np.abs(_get_ref(cfg).w)))
         T = LONG_K[(bool(cfg.small), _isdop(cfg))] / rho
@@ -327,29 +332,52 @@ class World:
         self.went_back = False
         self.stopped = False
         self.long = False  # history contains a long hop
+        # every state object the Evolution handed out, NOT copied, with a copy
+        # taken at that moment: (label, reported t, object, copy then)
+        self.kept = []
+        self.p0_given = None
+
+
+def _layout(a, lay):
+    a = np.ascontiguousarray(np.array(a))
+    if lay == "C":
+        return a
+    if lay == "F":
+        return np.asfortranarray(a)
+    if lay == "T":
+        return np.ascontiguousarray(a.T).T
+    if lay == "slice":
+        sentinel = 7.25 if a.dtype.kind != "c" else 7.25 - 3.5j
+        big = np.full(tuple(2 * n + 1 for n in a.shape), sentinel, dtype=a.dtype)
+        v = big[tuple(slice(1, None, 2) for _ in a.shape)]
+        v[...] = a
+        return v
+    raise KeyError(lay)
 
 
 def _mk_state(cfg, ref):
     import quimb as qu
 
     p = np.array(ref.p0)
+    if cfg.pform == "vec1d":
+        return _layout(p.reshape(-1), cfg.play)
+    if cfg.pform != "sparse":
+        p = _layout(p, cfg.play)
     if cfg.pform == "qarray":
         return qu.qarray(p)
     if cfg.pform == "ndarray":
         return p
-    if cfg.pform == "vec1d":
-        return p.reshape(-1)
     if cfg.pform == "sparse":
         return qu.qu(p, sparse=True)
     raise KeyError(cfg.pform)
 
 
-def _wrap_form(h, form):
+def _wrap_form(h, form, lay="C"):
     import quimb as qu
     import scipy.sparse as sp
     import scipy.sparse.linalg as spla
 
-    h = np.array(h)
+    h = _layout(h, lay) if form != "csr" else np.array(h)
     if form == "qarray":
         return qu.qarray(h)
     if form == "ndarray":
@@ -367,16 +395,16 @@ def _mk_ham(cfg, ref):
     fam, form = _family(cfg), _form(cfg)
     if fam == "ti":
         if form == "solved":
-            return (ref.w.copy(), qu.qarray(ref.v.astype(complex)))
+            return (_layout(ref.w, "slice" if cfg.hlay == "slice" else "C"), qu.qarray(_layout(ref.v.astype(complex), cfg.hlay)))
         if form == "solvedlist":
-            return [ref.w.copy(), np.array(ref.v)]
+            return [ref.w.copy(), _layout(ref.v, cfg.hlay)]
         if form == "lazy":
             A = ref.A
             return qu.Lazy(lambda: qu.qarray(np.array(A)), shape=A.shape)
-        return _wrap_form(ref.A, form)
+        return _wrap_form(ref.A, form, cfg.hlay)
 
     def ham(t):
-        return _wrap_form(ref.H(t), form)
+        return _wrap_form(ref.H(t), form, cfg.hlay)
 
     return ham
 
@@ -399,14 +427,36 @@ def _dense_of_H(H, t):
     return np.array(H)
 
 
+KEEP_MAX = 4000
+
+
+def _keep(w, label, t, obj):
+    if len(w.kept) < KEEP_MAX:
+        w.kept.append((label, t, obj, _dense_state(obj)))
+
+
+def _check_kept(w, event):
+    """A reported state must not change after it was reported: every object
+    handed out earlier (evo.pt, at_times yields, callback arguments, the
+    caller's own initial state) still holds the values it had then."""
+    for label, t, obj, then in w.kept:
+        now = _dense_state(obj)
+        if now.shape != then.shape or not np.array_equal(now, then):
+            dev = float(np.max(np.abs(now - then))) if now.shape == then.shape else float("inf")
+            return [core.problem("%s: the %s for t=%r was modified by a LATER call (changed by %.3g) - reported states alias a reused buffer (cfg %r)" % (event, label, t, dev, tuple(w.cfg)), **_sig(w, "reported-state-changed-later", event, handed="initial-state" if label.startswith("initial") else label.split()[0]))]
+    return []
+
+
 def _mk_callbacks(cfg, w):
     def f2(t, pt):
+        _keep(w, "state passed to compute callback f2", t, pt)
         w.rec.append(("f2", t, np.array(pt), None))
         r = len(w.rec)
         w.ret.setdefault("f2", []).append(r)
         return r
 
     def f3(t, pt, H):
+        _keep(w, "state passed to compute callback f3", t, pt)
         w.rec.append(("f3", t, np.array(pt), _dense_of_H(H, t)))
         r = len(w.rec)
         w.ret.setdefault("f3", []).append(r)
@@ -452,6 +502,7 @@ def _construct(w, cfg):
     # estimate (norm_fro_approx): the harness owns quimb's global generator
     qu.seed_rand(18)
     p0 = _mk_state(cfg, ref)
+    w.p0_given = p0
     ham = _mk_ham(cfg, ref)
     kw = {}
     if cfg.small:
@@ -786,6 +837,12 @@ class C18Case(seq.Case):
             cfg = Cfg(*e[1:])
             with contextlib.redirect_stderr(io.StringIO()):
                 _construct(w, cfg)
+            if cfg.pform != "sparse":
+                _keep(w, "initial state object given by the caller", cfg.t0, w.p0_given)
+            try:
+                _keep(w, "pt of the fresh object", cfg.t0, w.evo.pt)
+            except Exception:  # noqa - check() reports an unreadable fresh object
+                pass
             w.hist.append(e)
             return {"kind": "new"}
         cfg, evo = w.cfg, w.evo
@@ -801,7 +858,9 @@ class C18Case(seq.Case):
                 if t < t_bef:
                     w.went_back = True
                 evo.update_to(t)
-                subs.append((t, t_bef, evo.t, _dense_state(evo.pt)))
+                pt = evo.pt
+                _keep(w, "pt read after update_to", evo.t, pt)
+                subs.append((t, t_bef, evo.t, _dense_state(pt)))
             elif e[0] == "at_times":
                 ts = [_time(cfg, i) for i in e[1]]
                 t_bef = evo.t
@@ -813,6 +872,7 @@ class C18Case(seq.Case):
                 gen = evo.at_times(ts)
                 for pt in gen:
                     t = next(it)
+                    _keep(w, "state yielded by at_times", evo.t, pt)
                     subs.append((t, t_bef, evo.t, _dense_state(pt)))
                     t_bef = evo.t
                 if len(subs) != len(ts):
@@ -836,7 +896,8 @@ class C18Case(seq.Case):
                 return [core.problem("freshly constructed Evolution cannot report t/pt: %r (cfg %r)" % (ex, tuple(cfg)), **_sig(w, "init-state", ev))]
             if t != cfg.t0:
                 return [core.problem("fresh Evolution reports t=%r, t0=%r (cfg %r)" % (t, cfg.t0, tuple(cfg)), **_sig(w, "time-mismatch", ev))]
-            return _check_pair(w, t, pt, ev, what="init-state")
+            pr = _check_pair(w, t, pt, ev, what="init-state")
+            return pr or _check_kept(w, ev)
         subs = obs["subs"]
         if subs and subs[-1][0] == "count":
             return [core.problem("at_times yielded %d states for %d times (cfg %r)" % (subs[-1][2], subs[-1][1], tuple(cfg)), **_sig(w, "at_times-count", ev))]
@@ -856,7 +917,8 @@ class C18Case(seq.Case):
             pr = _check_pair(w, evo.t, evo.pt, ev)
             if pr:
                 return pr
-        return _check_callbacks(w, ev, subs, obs["n_before"])
+        pr = _check_callbacks(w, ev, subs, obs["n_before"])
+        return pr or _check_kept(w, ev)
 
     def check_rejected(self, w, e, exc, pre):
         if isinstance(exc, core.HarnessError):
@@ -1002,7 +1064,7 @@ def longhop_probe(cfg_t, common):
 #                       groups: complete sub-products                         #
 # --------------------------------------------------------------------------- #
 
-DEFAULT = dict(pform="qarray", hdt="complex", t0=0.3, small=False, cb="none", stop="none", prog=False, d=3)
+DEFAULT = dict(pform="qarray", hdt="complex", t0=0.3, small=False, cb="none", stop="none", prog=False, d=3, play="C", hlay="C")
 
 
 def _cfg(**kw):
@@ -1067,6 +1129,23 @@ def group_configs(group, tier):
             out.append(_cfg(method=m, state=st, ham=rep, stop=stop, prog=prog, cb=cb))
         for st, rep in itertools.product(STATES, ("ti:qarray", "ti:solved", "tdnc:qarray")):
             out.append(_cfg(method="bad", state=st, ham=rep))
+    elif group == "layouts":
+        # memory layout of the initial state x of the dense Hamiltonian data, every method and state kind
+        ds = (2, 3, 4) if th else (3,)
+        for m, st, play, hlay, d in itertools.product(METHODS, STATES, LAYOUTS, LAYOUTS, ds):
+            reps = ["ti:qarray", "ti:solved"] + (["tdnc:qarray", "ti:linop"] if m == "integrate" else [])
+            for rep_ in reps:
+                out.append(_cfg(method=m, state=st, ham=rep_, play=play, hlay=hlay, d=d))
+        for m, st, play, hlay in itertools.product(METHODS, STATES, LAYOUTS, LAYOUTS):
+            # plain ndarray inputs (state and Hamiltonian), 1-D vectors, callbacks keeping what they are given
+            if m != "solve":
+                out.append(_cfg(method=m, state=st, pform="ndarray", ham="ti:ndarray", play=play, hlay=hlay))
+            if st == "ket" and hlay in ("C", "F"):
+                out.append(_cfg(method=m, state=st, pform="vec1d", ham="ti:qarray", play=play, hlay=hlay))
+            if hlay in ("C", "T"):
+                out.append(_cfg(method=m, state=st, pform="ndarray", ham="ti:solvedlist", play=play, hlay=hlay, cb="f2"))
+                if m == "integrate":
+                    out.append(_cfg(method=m, state=st, ham="tdcomm:ndarray", play=play, hlay=hlay, cb="dict", small=True))
     elif group == "longhop":
         # one hop that needs > 500 internal integrator steps (see LONG)
         if th:
@@ -1090,6 +1169,11 @@ def group_configs(group, tier):
 
 def group_events(group, tier):
     th = tier == "thorough"
+    if group == "layouts":
+        ev = [("update_to", 0), ("update_to", 1), ("at_times", (2, 0, 1)), ("at_times", (1, 1))]
+        if th:
+            ev += [("update_to", 2), ("update_to", 3), ("at_times", (0, 1), "np")]
+        return ev
     if group == "longhop":
         ev = [("update_to", 0), ("update_to", LONG)]
         if th:
@@ -1107,7 +1191,7 @@ def group_events(group, tier):
     return upd + att
 
 
-GROUPS = ("core-solve-ket", "core-solve-dop", "core-expm-ket", "core-expm-dop", "core-integrate-ket", "core-integrate-dop_pure", "core-integrate-dop_mixed", "callbacks", "forms", "plumbing", "longhop")
+GROUPS = ("core-solve-ket", "core-solve-dop", "core-expm-ket", "core-expm-dop", "core-integrate-ket", "core-integrate-dop_pure", "core-integrate-dop_mixed", "callbacks", "forms", "plumbing", "layouts", "longhop")
 # number of events after the constructor
 
 
@@ -1115,6 +1199,8 @@ def _depth(group, tier):
     th = tier == "thorough"
     if group == "longhop":
         return 2
+    if group == "layouts":
+        return 3 if th else 2
     if group.startswith("core-integrate"):
         return 5 if th else 3
     if group.startswith("core-"):
